@@ -57,9 +57,9 @@ func genC12(t *rapid.T) C12Case {
 	c := C12Case{App: a}
 	n := 1 + uniformN(t, 3, "nsessions")
 	ids := []string{"alice", "bob", "s3"}
-	if n > 1 && chancePct(t, 40, "siblingid") {
+	if n > 1 && chancePct(t, 50, "siblingid") {
 		// an id that looks like a scratch name derived from another session's id
-		ids[1] = ids[0] + []string{".tmp", "~", ".bak", ".new", ".lock", ".swp", "-tmp", ".1", ".old", ".part"}[uniformN(t, 10, "suffix")]
+		ids[1] = ids[0] + []string{".tmp", ".tmp", ".tmp", "~", ".bak", ".new", ".lock", ".swp", "-tmp", ".1", ".old", ".part"}[uniformN(t, 12, "suffix")]
 		if chancePct(t, 25, "siblingprefix") {
 			ids[1] = []string{".tmp-", "tmp", "#", ".#", "_"}[uniformN(t, 5, "prefix")] + ids[0]
 		}
